@@ -42,6 +42,13 @@ type Case struct {
 
 const maxDecodeDepth = 32
 
+func clip(b []byte) []byte {
+	if len(b) > 160 {
+		return b[:160]
+	}
+	return b
+}
+
 // short renders a policy for a failure message (the replay file holds the full case).
 func short(n *Node) string {
 	s := n.String()
@@ -288,7 +295,7 @@ func checkAddress(c *Case, root *Node, presented types.SpendPolicy, memo addrMem
 	// wire form of the presented policy
 	want := refWire([]byte{1}, root, true, memo)
 	if got := libWire(presented); !bytes.Equal(got, want) {
-		return stats.Failf("C14/wire", "encoding of %s differs from reference: %x vs %x", short(root), got, want)
+		return stats.Failf("C14/wire", "encoding of %s differs from reference: %x vs %x", short(root), clip(got), clip(want))
 	}
 	depth, _ := presentedDepth(root, 0)
 	var dec types.SpendPolicy
